@@ -24,10 +24,10 @@ def unblock_entry(prog, with_size=True):
     def entry(it):
         f = it.new_file('in', tags=WIRE)
         obj = it.instantiate(ci, [f], {}, None)
-        if 'buffer' not in obj.fields:
-            raise AnalysisError('Unblock1014.buffer (anchored state) is not initialised by the constructor')
         buf = it.sym_bytes('buffered', tags=WIRE)
-        obj.fields['buffer'] = buf
+        from .common import set_state
+        if not set_state(it, obj, 'buffer', buf):
+            raise AnalysisError('Unblock1014.buffer (anchored state) is not initialised by the constructor')
         it.user.update(file=f, obj=obj, buf0=buf)
         args = []
         if with_size:
